@@ -93,13 +93,16 @@ func (c c03) Generate(seed uint64, tier string, idx int) *core.Plan {
 		p.Steps = append(p.Steps, core.Step{Op: "hostile", S: []string{"enumtrunc"}, A: []int64{int64(t)}})
 		for li := 0; li < 3; li++ {
 			for vi := range lenBoundary {
-				p.Steps = append(p.Steps, core.Step{Op: "hostile", S: []string{"lenfield"}, A: []int64{int64(t), int64(li), int64(vi), int64(r.Intn(2))}})
+				p.Steps = append(p.Steps, core.Step{Op: "hostile", S: []string{"lenfield"}, A: []int64{int64(t), int64(li), int64(vi), int64(r.Intn(2)), int64(r.Intn(4))}})
 			}
 		}
 		for _, k := range []int64{1, 2, 96, 4096} {
 			p.Steps = append(p.Steps, core.Step{Op: "hostile", S: []string{"extend"}, A: []int64{int64(t), k, int64(r.Intn(256))}})
 		}
 		p.Steps = append(p.Steps, core.Step{Op: "hostile", S: []string{"empty"}, A: []int64{int64(t)}})
+	}
+	for _, t := range []int64{7, 12, 13, 17, 24} {
+		p.Steps = append(p.Steps, core.Step{Op: "hostile", S: []string{"widetrunc"}, A: []int64{t}})
 	}
 	for _, t := range []int64{8, 9, 25, 26} {
 		for v := int64(0); v < 7; v++ {
@@ -122,7 +125,7 @@ func (c c03) Generate(seed uint64, tier string, idx int) *core.Plan {
 		case 4:
 			p.Steps = append(p.Steps, core.Step{Op: "hostile", S: []string{"setbyte"}, A: []int64{t, int64(r.Intn(1 << 16)), int64(r.Pick([]int{0, 0x3f, 0x40, 0x7f, 0x80, 0xbf, 0xc0, 0xff}))}})
 		case 5:
-			p.Steps = append(p.Steps, core.Step{Op: "hostile", S: []string{"lenfield"}, A: []int64{t, int64(r.Intn(3)), int64(r.Intn(len(lenBoundary))), int64(r.Intn(2))}})
+			p.Steps = append(p.Steps, core.Step{Op: "hostile", S: []string{"lenfield"}, A: []int64{t, int64(r.Intn(3)), int64(r.Intn(len(lenBoundary))), int64(r.Intn(2)), int64(r.Intn(4))}})
 		}
 	}
 	return p
@@ -349,7 +352,22 @@ func (st *c03state) mutate(kind string, stp core.Step, tgt int) [][]byte {
 			return nil
 		}
 		rest := b[f.off+old:]
-		out := append(append([]byte(nil), b[:f.off]...), putLen(f.kind, v)...)
+		enc := putLen(f.kind, v)
+		if w := stp.Arg(4, 0); f.kind == 'v' && w > 0 {
+			// the same value in a wider (non-minimal, but legal) varint form
+			width := []int{2, 4, 8}[int(w-1)%3]
+			if width > len(enc) {
+				e2 := make([]byte, width)
+				x := v
+				for k := width - 1; k >= 0; k-- {
+					e2[k] = byte(x)
+					x >>= 8
+				}
+				e2[0] = e2[0]&0x3f | map[int]byte{2: 0x40, 4: 0x80, 8: 0xc0}[width]
+				enc = e2
+			}
+		}
+		out := append(append([]byte(nil), b[:f.off]...), enc...)
 		if stp.Arg(3, 0) == 1 && v < 70000 {
 			// make the body agree with the declared length (zero filled / cut) — reaches the code behind the length check
 			body := make([]byte, v)
@@ -357,6 +375,41 @@ func (st *c03state) mutate(kind string, stp core.Step, tgt int) [][]byte {
 			return [][]byte{append(out, body...)}
 		}
 		return [][]byte{append(out, rest...)}
+	case "widetrunc":
+		// the honest length re-encoded in a wider varint form, with the message cut 1..12 bytes short
+		fs := st.lens[tgt]
+		if len(fs) == 0 || fs[0].kind != 'v' || fs[0].off >= len(b) {
+			return nil
+		}
+		f := fs[0]
+		old := 1 << (b[f.off] >> 6)
+		var cur uint64
+		for k := 0; k < old && f.off+k < len(b); k++ {
+			x := b[f.off+k]
+			if k == 0 {
+				x &= 0x3f
+			}
+			cur = cur<<8 | uint64(x)
+		}
+		var outs [][]byte
+		for _, width := range []int{2, 4, 8} {
+			if width <= old {
+				continue
+			}
+			e2 := make([]byte, width)
+			x := cur
+			for k := width - 1; k >= 0; k-- {
+				e2[k] = byte(x)
+				x >>= 8
+			}
+			e2[0] = e2[0]&0x3f | map[int]byte{2: 0x40, 4: 0x80, 8: 0xc0}[width]
+			full := append(append(append([]byte(nil), b[:f.off]...), e2...), b[f.off+old:]...)
+			outs = append(outs, full)
+			for cut := 1; cut <= 12 && cut < len(full); cut++ {
+				outs = append(outs, full[:len(full)-cut])
+			}
+		}
+		return outs
 	case "scalar":
 		// boundary values of the group order written into the scalar-carrying fields of the
 		// message: fixed-width r||s (targets 26, and the signature of type-3 requests), DER (25)
